@@ -326,12 +326,256 @@ func verifC06Case(vc *verifCtx, ci int) {
 	vc.CaseDone(ci)
 }
 
+// --- deep stores -------------------------------------------------------------
+//
+// Honest sequential insertion reaches k ~ 2^20 at most in a test run, i.e. 21
+// of the 49 possible buckets. The statement quantifies over "the first k
+// secrets of any counterparty chain" for every k of the 2^48 index space, so
+// stores for deep k are built STRUCTURALLY: after the first k secrets
+// (BOLT-3 indexes 2^48-1 down to L = 2^48-k) bucket b holds the last inserted
+// index with exactly b trailing zeros, i.e. the smallest I >= L with tz(I)==b.
+// The real store gets lnd's own producer output for those indexes (through its
+// unexported fields: this harness lives in package shachain), the reference
+// gets generate_from_seed. The construction is validated against real
+// sequential insertion for small k (counter deep_construction_selfcheck).
+
+// verifC06BucketIndex returns the BOLT-3 index held by bucket b after the
+// first k secrets, and whether the bucket is occupied.
+func verifC06BucketIndex(k uint64, b int) (uint64, bool) {
+	const top = uint64(1)<<48 - 1
+	L := top + 1 - k
+	step := uint64(1) << uint(b)
+	c := (L + step - 1) / step * step
+	if (c>>uint(b))&1 == 0 {
+		c += step
+	}
+	if c > top || c < L {
+		return 0, false
+	}
+	return c, true
+}
+
+// verifC06BuildDeep builds the real store and the reference for the first k
+// secrets of the chain with the given seed.
+func verifC06BuildDeep(vc *verifCtx, seed [32]byte, k uint64) (*RevocationStore, *verifC06Ref, bool) {
+	const top = uint64(1)<<48 - 1
+	prod := NewRevocationProducer(chainhash.Hash(seed))
+	st := NewRevocationStore()
+	ref := verifC06NewRef()
+	for b := 0; b < 48; b++ {
+		I, ok := verifC06BucketIndex(k, b)
+		if !ok {
+			continue
+		}
+		want := verifC06Gen(seed, I)
+		h, err := prod.AtIndex(top - I)
+		vc.Count("oracle_producer", 1)
+		if err != nil || [32]byte(*h) != want {
+			vc.Violation("producer_follows_chain", "AtIndex-deep",
+				fmt.Sprintf("producer.AtIndex(%d) err=%v differs from BOLT-3 generate_from_seed", top-I, err), nil)
+			return nil, nil, false
+		}
+		st.buckets[b] = element{index: newIndex(top - I), hash: *h}
+		if uint8(b)+1 > st.lenBuckets {
+			st.lenBuckets = uint8(b) + 1
+		}
+		ref.known[b].ok = true
+		ref.known[b].index = I
+		ref.known[b].secret = want
+	}
+	st.index = newIndex(k)
+	ref.next = top - k
+	return st, ref, true
+}
+
+// verifC06DeepK draws a k from the structured deep classes.
+func verifC06DeepK(r *verifRng) (uint64, string) {
+	const top = uint64(1)<<48 - 1
+	j := uint(13 + r.Intn(35)) // 13..47
+	switch r.Intn(9) {
+	case 0:
+		return uint64(1) << j, "pow2"
+	case 1:
+		return (uint64(1) << j) - 1, "pow2-1"
+	case 2:
+		return (uint64(1) << j) + 1, "pow2+1"
+	case 3:
+		return (uint64(1) << j) + (uint64(1) << uint(r.Intn(int(j)))), "two-bits"
+	case 4:
+		return top - uint64(r.Intn(6)) - 1, "near-end"
+	case 5:
+		return 0xAAAAAAAAAAAA >> uint(r.Intn(8)), "alt-a"
+	case 6:
+		return 0x555555555555 >> uint(r.Intn(8)), "alt-5"
+	case 7:
+		// the deepest buckets: k with 47 or 46 significant bits
+		return (uint64(1) << uint(46+r.Intn(2))) + r.U64n(1<<20) - (1 << 19), "deepest"
+	default:
+		return 1 + r.U64n(top-8), "random48"
+	}
+}
+
+func verifC06DeepCase(vc *verifCtx, ci int) {
+	const top = uint64(1)<<48 - 1
+	r := vc.Rng(ci)
+	var seed [32]byte
+	copy(seed[:], r.Bytes(32))
+
+	// construction self-check against real sequential insertion (small k)
+	{
+		ks := uint64(1 + r.Intn(3000))
+		stS := NewRevocationStore()
+		for i := uint64(0); i < ks; i++ {
+			h := chainhash.Hash(verifC06Gen(seed, top-i))
+			if err := stS.AddNextEntry(&h); err != nil {
+				vc.Violation("accepts_honest", "AddNextEntry",
+					fmt.Sprintf("store rejected the honest secret %d: %v", i, err), nil)
+				return
+			}
+		}
+		stD, _, ok := verifC06BuildDeep(vc, seed, ks)
+		if !ok {
+			return
+		}
+		var a, b bytes.Buffer
+		stS.Encode(&a)
+		stD.Encode(&b)
+		vc.Count("deep_construction_selfcheck", 1)
+		if !bytes.Equal(a.Bytes(), b.Bytes()) {
+			vc.t.Fatalf("deep-store construction differs from sequential insertion at k=%d (harness bug)", ks)
+		}
+	}
+
+	k, class := verifC06DeepK(r)
+	if k < 1 {
+		k = 1
+	}
+	if k > top-8 {
+		k = top - 8
+	}
+	hostileKind := r.Intn(5)
+	vc.Case(ci, map[string]any{"seed": verifHex(seed[:]), "deep_k": k, "class": class, "kind": hostileKind})
+	st, ref, ok := verifC06BuildDeep(vc, seed, k)
+	if !ok {
+		return
+	}
+	vc.Count("deep_cases", 1)
+	vc.Max("deep_buckets", int64(st.lenBuckets))
+	if !verifC06CheckStore(vc, st, ref, k, r, false, "deep") {
+		return
+	}
+
+	// serialisation round trip keeps every answer
+	var buf bytes.Buffer
+	if err := st.Encode(&buf); err != nil {
+		vc.Violation("serialisation", "encode", err.Error(), nil)
+		return
+	}
+	vc.Count("oracle_roundtrip", 1)
+	vc.Count("oracle_roundtrip_deep", 1)
+	st2, err := NewRevocationStoreFromBytes(bytes.NewReader(buf.Bytes()))
+	if err != nil {
+		vc.Violation("serialisation", "decode-deep",
+			fmt.Sprintf("k=%d (%d buckets): a store holding the first k secrets does not decode: %v", k, st.lenBuckets, err), nil)
+		return
+	}
+	if !verifC06CheckStore(vc, st2, ref, k, r, false, "deep-after-roundtrip") {
+		return
+	}
+	var buf2 bytes.Buffer
+	st2.Encode(&buf2)
+	if !bytes.Equal(buf.Bytes(), buf2.Bytes()) {
+		vc.Violation("serialisation", "re-encode", "re-encoding a decoded deep store differs", nil)
+		return
+	}
+
+	// hostile secret at position k, on a copy of the in-memory store
+	{
+		want := verifC06Gen(seed, top-k)
+		bad := want
+		switch hostileKind {
+		case 0:
+			bad[r.Intn(32)] ^= 1 << uint(r.Intn(8))
+		case 1:
+			bad = verifC06Gen(seed, top-(k+1))
+		case 2:
+			bad = verifC06Gen(seed, top-(k-1))
+		case 3:
+			copy(bad[:], r.Bytes(32))
+		default:
+			var other [32]byte
+			copy(other[:], r.Bytes(32))
+			bad = verifC06Gen(other, top-k)
+		}
+		stCopy := *st2
+		refCopy := *ref
+		hb := chainhash.Hash(bad)
+		gotErr := stCopy.AddNextEntry(&hb)
+		wantOK := refCopy.insert(bad)
+		vc.Count("oracle_hostile", 1)
+		vc.Count("oracle_hostile_deep", 1)
+		if wantOK != (gotErr == nil) {
+			vc.Violation("rejects_inconsistent", fmt.Sprintf("deep:kind%d:tz%d", hostileKind, verifC06TZ(top-k)),
+				fmt.Sprintf("deep k=%d (BOLT-3 trailing zeros %d): reference accept=%v, store err=%v",
+					k, verifC06TZ(top-k), wantOK, gotErr), nil)
+			return
+		}
+		if gotErr != nil {
+			vc.Count("hostile_rejected", 1)
+			var after bytes.Buffer
+			stCopy.Encode(&after)
+			if !bytes.Equal(after.Bytes(), buf.Bytes()) {
+				vc.Violation("rejects_inconsistent", "rejected-secret-changed-store",
+					fmt.Sprintf("deep k=%d: a rejected secret changed the serialised store", k), nil)
+				return
+			}
+		}
+	}
+
+	// the decoded store keeps accepting the honest continuation (this can
+	// open a new, deeper bucket, e.g. k = 2^47-1 -> bucket 47)
+	for c := uint64(0); c < 5; c++ {
+		hs := verifC06Gen(seed, top-(k+c))
+		hh := chainhash.Hash(hs)
+		if err := st2.AddNextEntry(&hh); err != nil {
+			vc.Violation("accepts_honest", "deep-continuation",
+				fmt.Sprintf("deep store k=%d rejects the honest secret %d: %v", k, k+c, err), nil)
+			return
+		}
+		ref.insert(hs)
+		if !verifC06CheckStore(vc, st2, ref, k+c+1, r, false, "deep-continue") {
+			return
+		}
+		var b3 bytes.Buffer
+		st2.Encode(&b3)
+		st3, err := NewRevocationStoreFromBytes(bytes.NewReader(b3.Bytes()))
+		vc.Count("oracle_roundtrip_deep", 1)
+		if err != nil {
+			vc.Violation("serialisation", "decode-deep",
+				fmt.Sprintf("k=%d (%d buckets): store does not decode: %v", k+c+1, st2.lenBuckets, err), nil)
+			return
+		}
+		if !verifC06CheckStore(vc, st3, ref, k+c+1, r, false, "deep-continue-roundtrip") {
+			return
+		}
+	}
+	vc.Sig(verifJoin("deep", class, st.lenBuckets, hostileKind))
+	if ci%200 == 1 {
+		vc.Sample(map[string]any{"case": ci, "deep_k": k, "class": class, "buckets": st.lenBuckets, "encoded": buf.Len()})
+	}
+	vc.CaseDone(ci)
+}
+
 func TestVerifC06Store(t *testing.T) {
 	vc := verifStart(t, "C06", "store")
 	defer vc.Finish()
-	total := vc.N(1200, 60000)
+	total := vc.N(1600, 80000)
 	for i := 0; i < total; i++ {
 		if !vc.Mine(i) {
+			continue
+		}
+		if i%4 == 3 {
+			verifC06DeepCase(vc, i)
 			continue
 		}
 		verifC06Case(vc, i)
